@@ -145,6 +145,8 @@ def explore(depth, last_stride=1):
                 out = apply(w2, c)
                 cases.append((path, c, out, w2.state(), w2.baked is not None and sorted(w2.baked.keys())))
                 k = w2.key()
+                if c[0] == 'bake' and out[0] == 'exc' and out[1] != 'RuntimeError' and 'declared as used' not in str(out[2]):
+                    continue      # bake failed inside a step (chemistry, not lifecycle): the automaton does not model it, nothing is explored from there
                 if k not in seen and d < depth:
                     seen[k] = path + (c,)
                     nxt.append((path + (c,), w2))
